@@ -119,6 +119,116 @@ fn accented_function_words(lang: &str) -> Vec<&'static str> {
 }
 
 impl Token {
+    /// C11 for a language that exists only in this case: a user of the library defines it through the public `Lang` API from
+    /// a menu of contracting compositions (base + mark -> letter), expanding compositions (ligature -> two to four letters),
+    /// sometimes a length-preserving one, sometimes foldings of the composed letters. Whatever the mix, a query (a title)
+    /// written with precomposed letters and the same text with some of them decomposed are the same query (title).
+    fn user_lang_case(&self, cx: &mut Cx) {
+        const CONTRACT: [(&str, &str, &str); 7] = [("e\u{301}", "é", "e"), ("a\u{308}", "ä", "a"), ("o\u{303}", "õ", "o"), ("c\u{327}", "ç", "c"), ("か\u{3099}", "が", "か"), ("は\u{309a}", "ぱ", "は"), ("ש\u{5c1}", "\u{fb2a}", "ש")];
+        const EXPAND: [(&str, &str); 5] = [("ゟ", "より"), ("ŉ", "ʼn"), ("ĳ", "ij"), ("ﬃ", "ffi"), ("㍿", "株式会社")];
+        let mut lang = Lang::new();
+        let mut contract: Vec<(&str, &str, &str)> = vec![];
+        for e in CONTRACT.iter() {
+            if cx.rng.chance(1, 2) {
+                contract.push(*e);
+            }
+        }
+        if contract.is_empty() {
+            contract.push(*cx.rng.pick(&CONTRACT));
+        }
+        let mut expand: Vec<(&str, &str)> = vec![];
+        if cx.rng.chance(3, 4) {
+            for e in EXPAND.iter() {
+                if cx.rng.chance(1, 2) {
+                    expand.push(*e);
+                }
+            }
+        }
+        for (from, to, _) in &contract {
+            lang.add_unicode_composition(from, to);
+        }
+        for (from, to) in &expand {
+            lang.add_unicode_composition(from, to);
+        }
+        let keeps_length = cx.rng.chance(1, 4);
+        if keeps_length {
+            lang.add_unicode_composition("\u{212b}", "Å");
+        }
+        let folds = cx.rng.chance(1, 2);
+        if folds {
+            for (_, to, base) in &contract {
+                lang.add_unicode_reduction(to, base);
+            }
+        }
+        if !expand.is_empty() && !keeps_length {
+            cx.count("user-defined languages with contracting and expanding compositions and no length-preserving one");
+        }
+        let desc = json!({"compositions": contract.iter().map(|c| (c.0, c.1)).chain(expand.iter().cloned()).chain(if keeps_length { vec![("\u{212b}", "Å")] } else { vec![] }).collect::<Vec<_>>(),
+                          "reductions": if folds { contract.iter().map(|c| (c.1, c.2)).collect::<Vec<_>>() } else { vec![] }});
+        let plain: Vec<char> = cv("abdefgijnost").into_iter().chain(cv("さかみはなよりし")).chain(cv("שלמ")).collect();
+        let special: Vec<&str> = contract.iter().map(|c| c.1).chain(expand.iter().map(|e| e.0)).collect();
+        let word = |rng: &mut Rng| -> String {
+            let n = rng.range(1, 7);
+            (0..n).map(|_| if rng.chance(1, 3) { rng.pick(&special).to_string() } else { rng.pick(&plain).to_string() }).collect::<Vec<_>>().concat()
+        };
+        let nt = cx.rng.range(1, 3);
+        let titles: Vec<String> = (0..nt).map(|_| (0..cx.rng.range(1, 3)).map(|_| word(&mut cx.rng)).collect::<Vec<_>>().join(*cx.rng.pick(&[" ", " ", "-", ", "]))).collect();
+        // some of the composed letters written as base + mark
+        let decompose = |rng: &mut Rng, text: &str, all: bool| -> String {
+            let mut out = String::new();
+            for c in text.chars() {
+                match contract.iter().find(|e| e.1.chars().next() == Some(c)) {
+                    Some(e) if all || rng.chance(1, 2) => out.push_str(e.0),
+                    _ => out.push(c),
+                }
+            }
+            out
+        };
+        let build = |ts: &[String]| -> Store {
+            let mut st = Store::new();
+            st.limit = 10;
+            st.highlight_with(("[", "]"));
+            for (i, t) in ts.iter().enumerate() {
+                st.add(Record::new(i + 1, t, 10 + i, &lang));
+            }
+            st
+        };
+        let ask = |st: &Store, q: &str| -> Hits { st.search(&tokenize_query(q, &lang).to_ref()).into_iter().map(|r| (r.id, r.title)).collect() };
+        let st = build(&titles);
+        let titles_dec: Vec<String> = titles.iter().map(|t| decompose(&mut cx.rng, t, false)).collect();
+        let st_dec = build(&titles_dec);
+        for _ in 0..4 {
+            let t: Vec<char> = cx.rng.pick(&titles).chars().collect();
+            let a = cx.rng.below(t.len());
+            let b = cx.rng.range(a + 1, t.len());
+            let q: String = if cx.rng.chance(1, 3) { s(&t) } else { s(&t[a..b]) };
+            let v = if cx.rng.chance(1, 3) { decompose(&mut cx.rng, &q, true) } else { decompose(&mut cx.rng, &q, false) };
+            cx.ctx(format!("C11 user-defined language {} titles={:?} q={:?} variant={:?}", desc, titles, q, v));
+            let base = ask(&st, &q);
+            if v != q {
+                let got = ask(&st, &v);
+                cx.eval();
+                cx.count("variants of a query in a user-defined language");
+                if !base.is_empty() {
+                    cx.key(hparts(&["userlang", &desc.to_string(), &format!("{:?}", titles), &q, &v]));
+                }
+                if got != base {
+                    cx.fail("variant-changes-result", json!({"language": "defined by the case through the public Lang API", "tables": desc, "titles": titles, "query": q, "variant": v, "kind": "decomposed", "result": base, "variant_result": got}));
+                    return;
+                }
+            }
+            if titles_dec != titles {
+                let got = ask(&st_dec, &q);
+                cx.eval();
+                cx.count("stored-decomposed comparisons in a user-defined language");
+                if got != base {
+                    cx.fail("decomposed-title-changes-result", json!({"language": "defined by the case through the public Lang API", "tables": desc, "titles": titles, "titles_stored_decomposed": titles_dec, "query": q, "result": base, "decomposed_store_result": got}));
+                    return;
+                }
+            }
+        }
+    }
+
     fn variants_case(&self, cx: &mut Cx, lang: &'static str) {
         let mut acc = oracle::accents(lang);
         acc.extend(oracle::reduced_pairs(lang));
@@ -318,19 +428,19 @@ impl Prop for Token {
     fn rule(&self) -> &'static str {
         match self.0 {
             Which::Invariants => "both tokenisers on: every string up to a length bound (4 quick, 5 thorough) over a 14-symbol adversarial alphabet per language (letter, capital, digit, space, '-', apostrophe, NUL, NBSP, combining mark, expanding letter, precomposed accent and its base letter, title-case digraph, caseless capital) - exhaustive; random hostile strings up to 60 symbols; every corpus title and vocabulary word. All clauses of the property are asserted on the returned arrays. Distinct by (language, input, tokeniser); non-trivial = at least one word",
-            Which::Variants => "stores of 1-4 titles over base letters + the language's own accent inventory (+ accented function words), queries = substrings with optional typo; each query is re-written with a random subset of letters re-cased (one-to-one case mappings only), decomposed, accent-folded, and/or separator-prefixed and must give the identical hit list and highlighted titles; stores with decomposed titles must answer like the precomposed ones. Non-trivial = base result non-empty and variant != query; distinct by (language, titles, query, variant)",
+            Which::Variants => "stores of 1-4 titles over base letters + the language's own accent inventory (+ accented function words), queries = substrings with optional typo; each query is re-written with a random subset of letters re-cased (one-to-one case mappings only), decomposed, accent-folded, and/or separator-prefixed and must give the identical hit list and highlighted titles; stores with decomposed titles must answer like the precomposed ones; the same for languages defined per case through the public Lang API (contracting, expanding, length-preserving compositions, foldings drawn from a menu). Non-trivial = base result non-empty and variant != query; distinct by (language, titles, query, variant)",
         }
     }
     fn streams(&self) -> Vec<Stream> {
         match self.0 {
             Which::Invariants => vec![Stream::new("exhaustive", NL * 15, NL * 15), Stream::new("random", 32000, 1600000), Stream::new("corpus", 64, 64), Stream::new("boundary", NL * 4, NL * 16), Stream::new("codepoints", 256, 256)],
-            Which::Variants => vec![Stream::new("stores", 32000, 1600000)],
+            Which::Variants => vec![Stream::new("stores", 32000, 1600000), Stream::new("userlang", 8000, 400000)],
         }
     }
     fn floors(&self) -> Vec<(&'static str, u64, u64)> {
         match self.0 {
             Which::Invariants => vec![("exhaustive strings", 250000, 4000000), ("texts with padding", 5000, 50000), ("texts with a stemmed word", 1000, 10000), ("queries with unfinished last word", 50000, 500000), ("texts whose length changed under normalisation", 5000, 50000), ("random hostile strings", 5000, 50000), ("random texts of 100-600 symbols", 1000, 10000), ("corpus titles", 3000, 3000), ("texts with a piece at a power-of-two position", 1500, 6000), ("code points tokenised", 3000000, 13000000)],
-            Which::Variants => vec![("variants decomposed", 2000, 20000), ("variants folded", 2000, 20000), ("variants re-cased", 5000, 50000), ("variants separator prefix", 2000, 20000), ("variants of a query with hits", 5000, 50000), ("stored-decomposed comparisons", 1000, 10000), ("variants longer than 128 characters", 300, 3000)],
+            Which::Variants => vec![("variants decomposed", 2000, 20000), ("variants folded", 2000, 20000), ("variants re-cased", 5000, 50000), ("variants separator prefix", 2000, 20000), ("variants of a query with hits", 5000, 50000), ("stored-decomposed comparisons", 1000, 10000), ("variants longer than 128 characters", 300, 3000), ("variants of a query in a user-defined language", 3000, 30000), ("user-defined languages with contracting and expanding compositions and no length-preserving one", 1000, 10000), ("stored-decomposed comparisons in a user-defined language", 5000, 50000)],
         }
     }
     fn dyn_floors(&self) -> Vec<(String, u64, u64)> {
@@ -511,6 +621,7 @@ impl Prop for Token {
                     give_lang(lang, lobj);
                 }
             }
+            (Which::Variants, "userlang") => self.user_lang_case(cx),
             (Which::Variants, _) => {
                 let lang = LANGS[(idx % NL) as usize];
                 self.variants_case(cx, lang);
